@@ -281,7 +281,7 @@ def aff_binop(op, a, b):
         m = 1 << fb[1]
         return aff_pack({k: v * m for k, v in fa[0].items()}, fa[1] * m)
     # non-linear use of an affine operand: a derived atom, so that equal expressions stay recognisably equal
-    if fa is not None and fb is not None and (fa[0] or fb[0]) and base in ("Shr", "Div", "Rem", "BitAnd", "Shl", "Mul"):
+    if fa is not None and fb is not None and (fa[0] or fb[0]) and base in ("Shr", "Div", "Rem", "BitAnd", "Shl", "Mul", "BitOr", "BitXor"):
         name = "(%s %s %s)" % (aff_str(fa), base, aff_str(fb))
         return aff_pack({name: 1}, 0)
     return None
